@@ -1200,6 +1200,38 @@ pub fn drive_c16(a: &Args) {
             }
         }
     }
+    // minimal lengths that are easy to get wrong: a region Sigma^[k,inf) / Sigma.Sigma+ / Sigma^k.all on the right, on the
+    // left a slice whose shortest string is shorter than its syntax suggests (a nullable loop inside an
+    // intersection, a loop of an optional, a union with a short arm)
+    {
+        let na = T::Not(bx(&ca));
+        let deceptive: Vec<T> = vec![
+            T::And2(bx(&T::Loop(bx(&na), 2, Some(2))), bx(&T::Not(bx(&T::Eps)))),
+            T::And2(bx(&T::Star(bx(&T::Str(vec![pool.a, pool.b])))), bx(&T::Plus(bx(&T::AllChar)))),
+            T::And2(bx(&T::Loop(bx(&T::Opt(bx(&ca))), 2, Some(3))), bx(&T::Not(bx(&T::Eps)))),
+            T::Alt2(bx(&ca), bx(&T::Str(vec![pool.a, pool.b, pool.a]))),
+            T::Loop(bx(&T::Alt2(bx(&ca), bx(&T::Str(vec![pool.a, pool.b])))), 1, Some(2)),
+            T::And2(bx(&T::Loop(bx(&T::AllChar), 1, Some(3))), bx(&na)),
+            cb.clone(),
+        ];
+        let regions: Vec<T> = vec![
+            T::Cat2(bx(&T::AllChar), bx(&T::Plus(bx(&T::AllChar)))),
+            T::Loop(bx(&T::AllChar), 2, None),
+            T::Loop(bx(&T::AllChar), 3, None),
+            T::Cat2(bx(&T::Pow(bx(&T::AllChar), 2)), bx(&T::All)),
+            T::Plus(bx(&T::AllChar)),
+            T::All,
+        ];
+        let c = T::Chr(pool.c);
+        for x in &deceptive {
+            for y in &regions {
+                pairs.push((T::Cat2(bx(&c), bx(x)), T::Cat2(bx(&c), bx(y)), "min-length"));
+                pairs.push((T::Cat2(bx(x), bx(&c)), T::Cat2(bx(y), bx(&c)), "min-length"));
+                pairs.push((T::CatL(vec![c.clone(), x.clone(), c.clone()]), T::CatL(vec![c.clone(), y.clone(), c.clone()]), "min-length"));
+                pairs.push((x.clone(), y.clone(), "min-length"));
+            }
+        }
+    }
     // sub-term pairs of random programs
     for _ in 0..a.sz(150, 2500) {
         let t = random_term(&mut rng, 3, &pool);
